@@ -35,9 +35,12 @@ Mark  == /\ pre' = boxes
          /\ TLCSet(1, l + 1)              \* high-water mark (last conjunct of every action)
 
 Snap(b) == {[mb |-> m, msgs |-> b[m]] : m \in {x \in Mailbox : b[x] # <<>>}}
-SnapOK(b) == /\ Ev.serr = <<>>
-             /\ Len(Ev.s) = Cardinality(Snap(b))
-             /\ ToSet(Ev.s) = Snap(b)
+(* (long histories carry the whole-store snapshot at their end only) *)
+SnapOK(b) == IF Has("s", Ev)
+             THEN /\ Ev.serr = <<>>
+                  /\ Len(Ev.s) = Cardinality(Snap(b))
+                  /\ ToSet(Ev.s) = Snap(b)
+             ELSE TRUE
 
 TraceInit == /\ l = 1 /\ exp = <<>> /\ pre = [m \in Mailbox |-> <<>>]
              /\ Init(0, 0)
@@ -70,6 +73,9 @@ TrAddGone == /\ Is("addgone") /\ Ev.r = "ok"
 TrListFault == /\ Is("listfault")
                /\ (Ev.r # "ok") \/ (Ev.msgs = ListRes(Ev.mb))
                /\ UNCHANGED svars /\ SnapOK(boxes) /\ Mark
+
+(* the id counter was driven to the end of its range (no message of the behaviour's mailboxes involved) *)
+TrWrapIds == /\ Is("wrapids") /\ UNCHANGED svars /\ SnapOK(boxes) /\ Mark
 
 TrSeen == /\ Is("seen") /\ Ev.r = ByIdRes(Ev.mb, Ev.id)
           /\ MarkSeen(Ev.mb, Ev.id)
@@ -137,11 +143,12 @@ StoredBeforeDeleted ==
     \A i, j \in DOMAIN Obs :
        (Obs[i].k = "stored" /\ Obs[j].k = "deleted" /\ Obs[i].mb = Obs[j].mb /\ Obs[i].id = Obs[j].id) => Obs[i].en < Obs[j].en
 (* stored events of one mailbox are seen in arrival order (= order expected) *)
-ExpPos(k) == CHOOSE a \in DOMAIN exp : exp[a] = k        \* defined for every observed key once ExactlyOnce holds
+(* position of an expected event (defined for every observed key once ExactlyOnce holds), as one function built once *)
 ArrivalOrder ==
-    \A i, j \in DOMAIN Obs :
-       (Obs[i].k = "stored" /\ Obs[j].k = "stored" /\ Obs[i].mb = Obs[j].mb /\ Obs[i].en < Obs[j].en) =>
-          ExpPos(Key(Obs[i])) < ExpPos(Key(Obs[j]))
+    LET pos == [k \in {exp[a] : a \in DOMAIN exp} |-> CHOOSE a \in DOMAIN exp : exp[a] = k]
+    IN  \A i, j \in DOMAIN Obs :
+           (Obs[i].k = "stored" /\ Obs[j].k = "stored" /\ Obs[i].mb = Obs[j].mb /\ Obs[i].en < Obs[j].en) =>
+              pos[Key(Obs[i])] < pos[Key(Obs[j])]
 Dev(key) == /\ key \in AllowedKeys
             /\ PrintT(<<"DEVIATION", key, l>>)
 TrEvents == /\ Is("events")
@@ -190,7 +197,7 @@ TrSites == /\ Is("sites")
 (* C10: every following operation runs in a newly started process *)
 TrRestart == /\ Is("restart") /\ Restart /\ SnapOK(boxes) /\ Mark
 
-TraceNext == \/ TrAddGone \/ TrListFault \/ TrAddFault \/ TrDelivered \/ TrSites \/ TrRestart \/ TrCrash \/ TrEvents \/ TrReset \/ TrAdd \/ TrSeen \/ TrRemove \/ TrPurge \/ TrScan
+TraceNext == \/ TrWrapIds \/ TrAddGone \/ TrListFault \/ TrAddFault \/ TrDelivered \/ TrSites \/ TrRestart \/ TrCrash \/ TrEvents \/ TrReset \/ TrAdd \/ TrSeen \/ TrRemove \/ TrPurge \/ TrScan
              \/ TrGet \/ TrLatest \/ TrList \/ TrVisit \/ TrReopen \/ TrProbe
 
 TraceSpec == TraceInit /\ [][TraceNext]_tvars
